@@ -34,6 +34,7 @@ var probeAlphabet = []probeSpec{
 	{"cond(Ready,False)", corev1alpha1.Probe{Condition: &corev1alpha1.ProbeConditionSpec{Type: "Ready", Status: "False"}}},
 	{"eq(.spec.a,.status.b)", corev1alpha1.Probe{FieldsEqual: &corev1alpha1.ProbeFieldsEqualSpec{FieldA: ".spec.a", FieldB: ".status.b"}}},
 	{"eq(.spec.a,.status.missing)", corev1alpha1.Probe{FieldsEqual: &corev1alpha1.ProbeFieldsEqualSpec{FieldA: ".spec.a", FieldB: ".status.missing"}}},
+	{"eq(.status.missing1,.status.missing2)", corev1alpha1.Probe{FieldsEqual: &corev1alpha1.ProbeFieldsEqualSpec{FieldA: ".status.missing1", FieldB: ".status.missing2"}}},
 	{"cel(true)", corev1alpha1.Probe{CEL: &corev1alpha1.ProbeCELSpec{Rule: "true", Message: "m"}}},
 	{"cel(false)", corev1alpha1.Probe{CEL: &corev1alpha1.ProbeCELSpec{Rule: "false", Message: "m"}}},
 	{"cel(error)", corev1alpha1.Probe{CEL: &corev1alpha1.ProbeCELSpec{Rule: "self.nope.x == 1", Message: "m"}}},
@@ -246,8 +247,8 @@ func refProbe(name string, o *unstructured.Unstructured) tri {
 			return 1
 		}
 		return 0
-	case "eq(.spec.a,.status.missing)":
-		return 0
+	case "eq(.spec.a,.status.missing)", "eq(.status.missing1,.status.missing2)":
+		return 0 // fieldsEqual fails on missing fields - also when both are missing
 	case "cel(true)":
 		return 1
 	case "cel(false)", "cel(error)", "cel(false,no message)":
@@ -364,7 +365,7 @@ func run(o checks.Opts) *report.Report {
 	rep.Bounds["objects"] = len(objs)
 	rep.Bounds["first_probe_variants"] = len(first)
 	rep.Bounds["second_probe_variants"] = len(second)
-	rep.Rule = "probe lists: [] , [p] and [p,q] with p from 6 selectors x (<=2 probes from 9 kinds incl. a failing CEL rule with an empty message), q from selectors x (<=1 probe); objects: generation x labels x status shape (absent, {}, scalar, observedGeneration absent/=/!=/string/float x 14 conditions shapes x fieldsEqual operand absent/equal/different); every list is parsed by the real internal/probing.Parse and probed on every object; distinct = (success, #messages, undecided)"
+	rep.Rule = "probe lists: [] , [p] and [p,q] with p from 6 selectors x (<=2 probes from 10 kinds incl. a failing CEL rule with an empty message and fieldsEqual over two absent fields), q from selectors x (<=1 probe); objects: generation x labels x status shape (absent, {}, scalar, observedGeneration absent/=/!=/string/float x 14 conditions shapes x fieldsEqual operand absent/equal/different); every list is parsed by the real internal/probing.Parse and probed on every object; distinct = (success, #messages, undecided)"
 	var lists [][]osProbe
 	lists = append(lists, nil)
 	for _, p := range first {
